@@ -66,6 +66,8 @@ class Run:
         self.theorems = theorems
         import gen_tables
         gen_tables.write(REPO, os.path.join(LEAN_DIR, "Gen", "Tables.lean"))
+        import gen_effects
+        gen_effects.write(REPO, os.path.join(LEAN_DIR, "Gen", "Effects.lean"))
         if os.path.exists(os.path.join(HERE, "gen_effects.py")) and self.pid in ("C17", "C18"):
             import gen_effects
             gen_effects.write(REPO, os.path.join(LEAN_DIR, "Gen", "Effects.lean"))
@@ -195,6 +197,7 @@ class MachineryError(Exception):
 TRUSTED_BASE = [
     "Lean 4.33 kernel; axioms of every listed theorem ⊆ {propext, Classical.choice, Quot.sound} (audited each run)",
     "harness/gen_tables.py (copies literals and dispatch keys from /repo by AST)",
+    "harness/gen_effects.py (syntactic effect summaries of the pure-Python backend, closed over the call graph; C17/C18)",
     "correspondence harness: wire (de)serialisation, exception->enum mapping, Lean.Data.Json in the driver; "
     "agreement of model and implementation is observed on this run's cases, not proved",
     "CPython: int, bytes, dict order, str.encode/bytes.decode, struct pack/unpack, json, datetime, decimal, uuid, "
